@@ -166,48 +166,87 @@ def r16b(run, C):
 
 
 def r16c(run, C):
-    f = run.repo.func("utype.utils.base", "TypeRegistry.register.detector")
+    """the detector that register() builds, as a decision table: register is interpreted (absint.py) for every combination
+    of criteria - no class / one / two classes, allow_subclasses on / off, a metaclass or none, an attribute or none - and the
+    resulting detector is applied to the exact class, a subclass, an unrelated class, each with / without the attribute and
+    of / not of the metaclass.  It must accept exactly when every given criterion holds."""
+    import itertools
+    from ..absint import Interp, Obj, Raised
     reg = run.repo.func("utype.utils.base", "TypeRegistry.register")
-    fa = analysis(f)
-    loads = {x.id for x in walk_shallow(f.node) if isinstance(x, ast.Name) and isinstance(x.ctx, ast.Load)}
+    f = reg
+    methods = {m.name: m.node for m in C.methods.values()}
     for crit in ("classes", "allow_subclasses", "metaclass", "attr"):
-        run.check("R16c", f, f"criterion `{crit}` is consulted by the generated detector",
-                  crit in loads and crit in reg.params,
-                  construct=f"criterion {crit} ignored", message=f"the detector built by register() never reads `{crit}`",
-                  necessity=f"registrations that differ only in `{crit}` match the same classes")
-    # shape: subclass vs exact membership under allow_subclasses; metaclass by isinstance; attr by hasattr; each
-    # failing criterion returns False
-    src = f.node
-    tests = {}
-    for n in fa.cfg.nodes:
-        if n.kind == "stmt" and isinstance(n.ast, ast.Return) and isinstance(n.ast.value, ast.Constant) \
-                and n.ast.value.value is False:
-            for a, p in fa.facts.atoms_at(n):
-                tests.setdefault(unparse(a), set()).add(p)
-    need = {
-        "issubclass(_cls, classes)": False,
-        "_cls not in classes": True,
-        "isinstance(_cls, metaclass)": False,
-    }
-    cls_param = f.params[0] if f.params else "_cls"
-    for t, pol in need.items():
-        t2 = t.replace("_cls", cls_param)
-        alt = None
-        if t2.endswith("not in classes"):
-            alt = (f"{cls_param} in classes", False)
-        ok = pol in tests.get(t2, set()) or (alt is not None and alt[1] in tests.get(alt[0], set()))
-        run.check("R16c", f, f"detector rejects (returns False) when `{t2}` is {pol}", ok,
-                  construct=f"detector criterion {t2}", message=f"the detector does not return False on `{t2}`={pol}",
-                  necessity="the matching rule differs from the registration's own criteria")
-    sub_guard = any(("allow_subclasses", True) == (unparse(a), p) for n in fa.cfg.nodes if n.kind == "test"
-                    and "issubclass" in unparse(n.ast) for a, p in fa.facts.atoms_at(n))
-    run.check("R16c", f, "issubclass matching is used exactly when allow_subclasses is true", sub_guard,
-              construct="allow_subclasses polarity", message="the issubclass test is not guarded by allow_subclasses",
-              necessity="allow_subclasses=False registrations would also match subclasses (or the reverse)")
-    attr_ok = any("hasattr" in t and False in pols for t, pols in tests.items()) or any(
-        "hasattr" in unparse(n.ast) for n in fa.cfg.nodes if n.kind == "test")
-    run.check("R16c", f, "attr criterion is tested with hasattr", attr_ok, construct="attr criterion",
-              message="the detector never tests hasattr(_cls, attr)")
+        ok = crit in reg.params
+        run.check("R16c", reg, f"register() takes the criterion `{crit}`", ok, construct=f"criterion {crit} missing",
+                  message=f"TypeRegistry.register has no `{crit}` parameter")
+    A = Obj("class A", _is_class=True)
+    B = Obj("class B", _is_class=True)
+    M = Obj("metaclass M", _is_class=True)
+    wrong = {}
+    total = 0
+    for classes in ((), (A,), (A, B)):
+        for allow_sub in (True, False):
+            for meta in (None, M):
+                for attr in (None, "marker"):
+                    self_ = Obj("TypeRegistry", validator=lambda fn: True, _registry=[], _cache={"stale": 1}, _lock=Obj("lock"),
+                                cache=True, name="registry")
+                    ip = Interp(methods=methods, module=reg.module)
+                    kw = dict(attr=attr, metaclass=meta, allow_subclasses=allow_sub)
+                    try:
+                        deco = ip.call_function(reg.node, (self_,) + classes, kw)
+                        deco("the-function")
+                    except Raised as r:
+                        if not classes and not attr and not meta:
+                            continue         # no criterion at all: refused, as documented
+                        wrong.setdefault("a registration with criteria is accepted", (f"classes={len(classes)}, {kw}", r.cls, "registered"))
+                        continue
+                    if not classes and not attr and not meta:
+                        wrong.setdefault("a registration without any criterion is refused", ("no criterion", "registered", "ValueError"))
+                        continue
+                    if len(self_._registry) != 1:
+                        wrong.setdefault("one registration adds one entry", (str(kw), len(self_._registry), 1))
+                        continue
+                    det = self_._registry[0][0]
+                    for kind in ("exact", "subclass", "other"):
+                        for has_attr in (True, False):
+                            for of_meta in (True, False):
+                                c = A if kind == "exact" else Obj(f"class {kind}", _is_class=True,
+                                                                   _mro=(A,) if kind == "subclass" else ())
+                                c = Obj(c._cls, _is_class=True, _mro=c.__dict__.get("_mro", ()), _type=M if of_meta else None)
+                                if kind == "exact":
+                                    # the exact class itself: a fresh object would not be `in classes`; use A with the features
+                                    c = A
+                                    A.__dict__["_type"] = M if of_meta else None
+                                    A.__dict__.pop("marker", None)
+                                if has_attr:
+                                    c.__dict__["marker"] = "v"
+                                total += 1
+                                try:
+                                    got = bool(det(c))
+                                except Raised as r:
+                                    got = f"raises {r.cls}"
+                                want = True
+                                if classes:
+                                    want = want and (kind == "exact" or (kind == "subclass" and allow_sub))
+                                if meta:
+                                    want = want and of_meta
+                                if attr:
+                                    want = want and has_attr
+                                if got != want:
+                                    which = ("class criterion (subclasses admitted)" if classes and allow_sub else
+                                             "class criterion (exact classes only)" if classes else "no class criterion")
+                                    wrong.setdefault(which + (", metaclass" if meta else "") + (", attribute" if attr else ""),
+                                                     (f"{len(classes)} class(es), allow_subclasses={allow_sub}, metaclass="
+                                                      f"{'M' if meta else None}, attr={attr!r}; candidate: {kind} class, "
+                                                      f"{'has' if has_attr else 'lacks'} the attribute, "
+                                                      f"{'instance' if of_meta else 'not an instance'} of M", got, want))
+    run.check("R16c", f, "the generated detector accepts exactly the types that meet every given criterion", not wrong,
+              construct="detector criteria",
+              message="the detector built by TypeRegistry.register disagrees with the registration's own criteria: " + "; ".join(
+                  f"[{k}] for {v[0]} it answers {v[1]!r}, expected {v[2]!r}" for k, v in sorted(wrong.items())[:3]),
+              necessity="matching does not follow the registration's own criteria (exact class, subclass, metaclass, "
+                        "attribute): a converter is used for types it was not registered for, or skipped for ones it was")
+    run.floor("R16c", "detector evaluations", total, 200)
     # decorator registers (detector, f, priority)
     d = run.repo.func("utype.utils.base", "TypeRegistry.register.decorator")
     da = analysis(d)
